@@ -1636,6 +1636,9 @@ class Stage:
         if depends_on(expr,stage.xq) and stage._method.poly_coeff_q is None:
             msg = "No quadrature polynomal coefficients for the {} integration method".format(stage._method.intg)
             raise Exception(msg)
+        if depends_on(expr,stage.z) and not stage._method.poly_coeff_z:
+            msg = "No polynomal coefficients for the algebraic variables with the {} integration method".format(stage._method.intg)
+            raise Exception(msg)
         N, M = stage._method.N, stage._method.M
 
         expr_f = Function('expr', [stage.t, stage.x, stage.xq, stage.z, stage.u, vertcat(stage.p, stage.v), stage.t0, stage.T], [expr])
